@@ -69,12 +69,15 @@ theorem front_pptx (a : Archive) (x : Docs) (body : Nat → SlideBody) (nt : Nat
       List.map_map, pptxDocument, true_and]
     exact ⟨rfl, rfl⟩
 
-/-- **front_epub** — `parts` = the spine in its own order, each idref resolved (manifest
-href → percent-decoded → joined to the package document's directory) and looked up. -/
+/-- **front_epub** — `parts` = the spine in its own order, later repetitions of an already
+listed resource removed (`spineFirsts`: restated after c53b79e, before it was the whole
+spine; for a spine without repeated resources it still is, `spineFirsts_of_unrepeated`), each
+idref resolved (manifest href → percent-decoded → joined to the package document's
+directory) and looked up. -/
 theorem front_epub (hv : HtmlViews) (a : Archive) (x : Docs) (o : FrontOpts) (base : Str)
     (manifest : List (Str × Str)) (spine : List Str)
     (h : epubDeclared (lookup a) x = some (base, manifest, spine)) :
-    let parts := spine.zipIdx.filterMap (epubSpecPart a base manifest)
+    let parts := (spineFirsts base manifest spine).filterMap (epubSpecPart a base manifest)
     frontCountEpub a x = (if parts = [] then none else some parts.length) ∧
     frontTextEpub hv a x o =
       (if parts = [] then none
@@ -86,7 +89,7 @@ theorem front_epub (hv : HtmlViews) (a : Archive) (x : Docs) (o : FrontOpts) (ba
   simp only at hr
   unfold frontCountEpub frontTextEpub frontDocEpub
   rw [hr]
-  by_cases hp : spine.zipIdx.filterMap (epubSpecPart a base manifest) = []
+  by_cases hp : (spineFirsts base manifest spine).filterMap (epubSpecPart a base manifest) = []
   · simp [parts, hp]
   · simp only [parts, hp, if_false, Option.map_some, List.length_map, epubText, keepTexts_eq_filterMap, true_and]
     exact ⟨rfl, trivial⟩
@@ -190,7 +193,8 @@ theorem names_irrelevant_pptx (a a' : Archive) (x : Docs) (paths paths' : List S
 
 /-- **names_irrelevant_epub** — two publications whose spines resolve, position by position,
 to the same member name and content present the same chapters (a chapter records its
-resolved href and manifest id, so those are part of what is compared). -/
+resolved href and manifest id, so those are part of what is compared); the set of
+resources already loaded evolves identically in both. -/
 theorem names_irrelevant_epub (a a' : Archive) (base base' : Str) (manifest manifest' : List (Str × Str))
     (spine spine' : List Str) (hl : spine.length = spine'.length)
     (h : ∀ (k : Nat) (r r' : Str), spine[k]? = some r → spine'[k]? = some r' →
@@ -198,14 +202,7 @@ theorem names_irrelevant_epub (a a' : Archive) (base base' : Str) (manifest mani
       ∀ p, chapterPath base manifest r = some p → lookup a p = lookup a' p) :
     epubLoop (lookup a) base manifest 0 spine = epubLoop (lookup a') base' manifest' 0 spine' := by
   unfold epubLoop
-  apply loopIdx_pointwise _ _ _ _ 0 hl
-  intro k r r' hr hr'
-  obtain ⟨h1, h2, h3⟩ := h k r r' hr hr'
-  subst h1
-  simp only [Nat.zero_add, epubPart, ← h2]
-  cases hp : chapterPath base manifest r with
-  | none => rfl
-  | some p => simp only [h3 p hp]
+  exact epubLoopS_pointwise (lookup a) (lookup a') base base' manifest manifest' [] 0 spine spine' hl h
 
 /-- non-vacuity of `names_irrelevant_pptx`: `ppt/slides/slide2.xml` in one deck, `deck/z.xml`
 in the other, same content, neither has a relationship part -/
